@@ -80,14 +80,16 @@ RetEv(r, s, e) == IF cfg.flavour = "chan"
 
 (* bare `return err`: nothing emitted, state kept; the Server flavour then  *)
 (* runs handleChannel's error arm                                           *)
-BareErr(evs, vanished) ==
+BareErrE(evs, vanished, e) ==      \* e = the encryption the transport is under by now
   /\ obs' = obs \o evs
             \o (IF cfg.flavour = "server" /\ FixReleaseOnErr /\ ~vanished
                 THEN <<Ev("closed")>> ELSE <<>>)
-            \o RetEv("err", sState, tenc) \o StateEv(sState)
+            \o RetEv("err", sState, e) \o StateEv(sState)
   /\ pc' = "dead"
   /\ open' = IF cfg.flavour = "server" /\ FixReleaseOnErr THEN FALSE ELSE open
-  /\ UNCHANGED <<cfg, sState, tenc, rt, fed>>
+  /\ tenc' = e
+  /\ UNCHANGED <<cfg, sState, rt, fed>>
+BareErr(evs, vanished) == BareErrE(evs, vanished, tenc)
 
 (* FailSession: emit failed + reason, state := failed, close (send succeeded) *)
 Fail(evs) ==
@@ -101,7 +103,7 @@ Fail(evs) ==
 
 (* sendAuthenticatingSession *)
 StartAuth(evs, e) ==
-  IF cfg.schemes = {} THEN BareErr(evs, FALSE)
+  IF cfg.schemes = {} THEN BareErrE(evs, FALSE, e)      \* (after an upgrade the transport is under tls already)
   ELSE /\ obs' = obs \o evs
                  \o <<[Out("authenticating") EXCEPT !.sopts = SchStr(cfg.schemes),
                         !.wire = IF e = "tls" THEN "tls" ELSE "clear"]>>
